@@ -4,7 +4,7 @@
    This file holds statements only; every proof is `exact <lemma>` or a few lines over lemmas proved elsewhere. *)
 From Coq Require Import List Arith NArith Bool Lia Permutation.
 Import ListNotations.
-Require Import S1 VParse Py VMeaning VCmp SpecModel SpecOps Order Canon SpecEq VWf VKeyEq SortUnique.
+Require Import S1 VParse Py VMeaning VCmp SpecModel SpecOps Order Canon SpecEq VWf VKeyEq SortUnique CanonLaws VObsModel VSortLaws VClauses VNumeric VKeyEqb VDec.
 Open Scope N_scope.
 
 (* the six Python operators on two parsed strings *)
@@ -90,10 +90,247 @@ Proof.
 Qed.
 Print Assumptions C01_sorting_gives_one_answer.
 
+
+(* ---------------------------------------------------------------------------------------------------------------------------------
+   9-14. "The order is PEP 440's", clause by clause.  Each clause is stated twice: about pep440_cmp (proved in Ver/VClauses.v without
+   appealing to the reader's trust in the definition of pep440_cmp) and about the six Python operators on parsed strings. *)
+
+(* x is strictly below y for every one of the Python operators *)
+Definition strictly_below (x y : version) : Prop :=
+  vop Lt_ x y = Some true /\ vop Le_ x y = Some true /\ vop Eq_ x y = Some false /\ vop Ne_ x y = Some true /\
+  vop Ge_ x y = Some false /\ vop Gt_ x y = Some false /\ vop Gt_ y x = Some true /\ vop Lt_ y x = Some false.
+Theorem C01_below_iff a b x y : Version a = Some x -> Version b = Some y -> (pep440_cmp x y = Lt <-> strictly_below x y).
+Proof.
+  intros Ha Hb. unfold strictly_below. rewrite !(C01_ops_are_pep440 a b x y Ha Hb), !(C01_ops_are_pep440 b a y x Hb Ha).
+  rewrite (ok_sym _ pep440_cmp_ok x y). split.
+  - intros ->. cbn. repeat split.
+  - intros (H & _). destruct (pep440_cmp x y); cbn in H; congruence.
+Qed.
+Print Assumptions C01_below_iff.
+
+(* 9. epoch first *)
+Theorem C01_epoch_first x y : epoch x < epoch y -> pep440_cmp x y = Lt.
+Proof. exact (epoch_first_lt x y). Qed.
+Print Assumptions C01_epoch_first.
+Theorem C01_epoch_first_ops a b x y : Version a = Some x -> Version b = Some y -> epoch x < epoch y -> strictly_below x y.
+Proof. intros Ha Hb H. apply (C01_below_iff a b x y Ha Hb), epoch_first_lt, H. Qed.
+Print Assumptions C01_epoch_first_ops.
+
+(* 10. then the release: with equal epochs a differing release decides; the comparison is the component-wise numeric comparison of the
+       releases padded with zeros to a common length (so the first differing component decides by value and trailing zeros are irrelevant);
+       Version._key's stripping (Py.strip0) is the S1.strip of theorem 7 *)
+Theorem C01_release_second x y c : epoch x = epoch y -> padcmp (release x) (release y) = c -> c <> Eq -> pep440_cmp x y = c.
+Proof. exact (release_second x y c). Qed.
+Print Assumptions C01_release_second.
+Theorem C01_release_numeric_zero_padded :
+  (forall a b n, (length a <= n)%nat -> (length b <= n)%nat -> padcmp a b = lex (pad n a) (pad n b)) /\
+  (forall p x y a b, x < y -> lex (p ++ x :: a) (p ++ y :: b) = Lt) /\
+  (forall r k, padcmp (r ++ repeat 0 k) r = Eq) /\
+  (forall l, Py.strip0 l = S1.strip l).
+Proof. repeat split. exact padcmp_is_padded_lex. exact lex_first_diff. exact padcmp_trailing_zeros. Qed.
+Print Assumptions C01_release_numeric_zero_padded.
+Theorem C01_release_second_ops a b x y : Version a = Some x -> Version b = Some y ->
+  epoch x = epoch y -> (forall n, (length (release x) <= n)%nat -> (length (release y) <= n)%nat -> lex (pad n (release x)) (pad n (release y)) = Lt) ->
+  strictly_below x y.
+Proof.
+  intros Ha Hb E H. apply (C01_below_iff a b x y Ha Hb). apply release_second; [exact E | | discriminate].
+  rewrite (padcmp_is_padded_lex _ _ (Nat.max (length (release x)) (length (release y)))) by lia. apply H; lia.
+Qed.
+Print Assumptions C01_release_second_ops.
+
+(* 11. within one release (same epoch, releases equal after zero padding):  devN-only < aN < bN < rcN < final < postN *)
+Definition ladder_step (x y : version) : Prop :=
+  (is_devonly x /\ exists l n, pre y = Some (l, n)) \/
+  (is_devonly x /\ (is_final y \/ is_post y)) \/
+  (exists n m, pre x = Some (a_, n) /\ pre y = Some (b_, m)) \/
+  (exists n m, pre x = Some (b_, n) /\ pre y = Some (rc_, m)) \/
+  (exists n m, pre x = Some (a_, n) /\ pre y = Some (rc_, m)) \/
+  (exists l n m, pre x = Some (l, n) /\ pre y = Some (l, m) /\ n < m) \/
+  (exists l n, pre x = Some (l, n) /\ (is_final y \/ is_post y)) \/
+  (is_final x /\ is_post y) \/
+  (exists n m, is_post x /\ is_post y /\ post_number x = Some n /\ post_number y = Some m /\ n < m) \/
+  (exists n m, is_devonly x /\ is_devonly y /\ dev_number x = Some n /\ dev_number y = Some m /\ n < m).
+Theorem C01_ladder x y : same_release x y -> ladder_step x y -> pep440_cmp x y = Lt.
+Proof.
+  intros S [(D & l & n & P)|[(D & F)|[(n & m & P & Q)|[(n & m & P & Q)|[(n & m & P & Q)|[(l & n & m & P & Q & L)|[(l & n & P & F)|[(F & P)|
+            [(n & m & P & Q & A & B & L)|(n & m & P & Q & A & B & L)]]]]]]]]].
+  - eapply ladder_devonly_pre; eassumption.   - now apply ladder_devonly_final.
+  - eapply ladder_a_b; eassumption.           - eapply ladder_b_rc; eassumption.      - eapply ladder_a_rc; eassumption.
+  - eapply ladder_pre_number; eassumption.    - eapply ladder_pre_final; eassumption. - now apply ladder_final_post.
+  - eapply ladder_post_number; eassumption.   - eapply ladder_dev_number; eassumption.
+Qed.
+Print Assumptions C01_ladder.
+Theorem C01_ladder_ops a b x y : Version a = Some x -> Version b = Some y -> same_release x y -> ladder_step x y -> strictly_below x y.
+Proof. intros Ha Hb S L. apply (C01_below_iff a b x y Ha Hb), C01_ladder; assumption. Qed.
+Print Assumptions C01_ladder_ops.
+
+(* 12. a .devM suffix sorts just below the thing it is attached to: v.devM < v, and whatever lies strictly between is another .dev release of v.
+       (v has a pre or post part, no dev part and no local label; for a bare final X, X.devM is the "dev-only" rung of clause 11.) *)
+Theorem C01_dev_just_below v m : dev v = None -> local v = None -> (pre v <> None \/ post v <> None) ->
+  pep440_cmp (with_dev v m) v = Lt /\
+  forall w, pep440_cmp (with_dev v m) w = Lt -> pep440_cmp w v = Lt ->
+    epoch w = epoch v /\ padcmp (release w) (release v) = Eq /\ pre_class w = pre_class v /\ post_class w = post_class v /\ dev w <> None.
+Proof. exact (dev_just_below v m). Qed.
+Print Assumptions C01_dev_just_below.
+Lemma wf_with_dev v m : VMeaning.wf_version v -> VMeaning.wf_version (with_dev v m).
+Proof. intros (A & B & C & D & E). repeat split; auto. Qed.
+Lemma wf_with_post v m : VMeaning.wf_version v -> VMeaning.wf_version (with_post v m).
+Proof. intros (A & B & C & D & E). repeat split; auto. Qed.
+Lemma vop_lt_cmp a b x y : Version a = Some x -> Version b = Some y -> vop Lt_ x y = Some true -> pep440_cmp x y = Lt.
+Proof. intros Ha Hb. rewrite (C01_ops_are_pep440 a b x y Ha Hb). destruct (pep440_cmp x y); cbn; congruence. Qed.
+Theorem C01_dev_just_below_ops a v m : Version a = Some v -> dev v = None -> local v = None -> (pre v <> None \/ post v <> None) ->
+  Version (vstr (with_dev v m)) = Some (with_dev v m) /\ strictly_below (with_dev v m) v /\
+  forall c w, Version c = Some w -> vop Lt_ (with_dev v m) w = Some true -> vop Lt_ w v = Some true ->
+    epoch w = epoch v /\ padcmp (release w) (release v) = Eq /\ pre_class w = pre_class v /\ post_class w = post_class v /\ dev w <> None.
+Proof.
+  intros Ha Dv Lv Hp. pose proof (Version_vstr _ (wf_with_dev v m (Version_wf _ _ Ha))) as Hd.
+  destruct (dev_just_below v m Dv Lv Hp) as [H1 H2]. split; [exact Hd|]. split.
+  - apply (C01_below_iff _ a _ _ Hd Ha), H1.
+  - intros c w Hc L1 L2. apply H2; [exact (vop_lt_cmp _ c _ _ Hd Hc L1) | exact (vop_lt_cmp c a _ _ Hc Ha L2)].
+Qed.
+Print Assumptions C01_dev_just_below_ops.
+
+(* 13. a .postM suffix sorts just above the thing it is attached to: v < v.postM, and whatever lies strictly between is a post-release of v
+       (lower number, or the .dev of a post-release) or v with a (greater) local label *)
+Theorem C01_post_just_above v m : post v = None -> dev v = None ->
+  pep440_cmp v (with_post v m) = Lt /\
+  forall w, pep440_cmp v w = Lt -> pep440_cmp w (with_post v m) = Lt ->
+    epoch w = epoch v /\ padcmp (release w) (release v) = Eq /\ pre_class w = pre_class v /\ (post w <> None \/ (dev w = None /\ local w <> None)).
+Proof. exact (post_just_above v m). Qed.
+Print Assumptions C01_post_just_above.
+Theorem C01_post_just_above_ops a v m : Version a = Some v -> post v = None -> dev v = None ->
+  Version (vstr (with_post v m)) = Some (with_post v m) /\ strictly_below v (with_post v m) /\
+  forall c w, Version c = Some w -> vop Lt_ v w = Some true -> vop Lt_ w (with_post v m) = Some true ->
+    epoch w = epoch v /\ padcmp (release w) (release v) = Eq /\ pre_class w = pre_class v /\ (post w <> None \/ (dev w = None /\ local w <> None)).
+Proof.
+  intros Ha Pv Dv. pose proof (Version_vstr _ (wf_with_post v m (Version_wf _ _ Ha))) as Hd.
+  destruct (post_just_above v m Pv Dv) as [H1 H2]. split; [exact Hd|]. split.
+  - apply (C01_below_iff a _ _ _ Ha Hd), H1.
+  - intros c w Hc L1 L2. apply H2; [exact (vop_lt_cmp a c _ _ Ha Hc L1) | exact (vop_lt_cmp c _ _ _ Hc Hd L2)].
+Qed.
+Print Assumptions C01_post_just_above_ops.
+
+(* 14. finally the local label: it decides only when everything before it ties; none < any; segment-wise (first differing segment decides);
+       numeric above alphanumeric; numeric by value; alphanumeric lexically (by code point); a proper prefix first *)
+Theorem C01_local_rules :
+  (forall x y, same_release x y -> pre_class x = pre_class y -> post_class x = post_class y -> dev_class x = dev_class y ->
+               pep440_cmp x y = local_cmp (local x) (local y)) /\
+  (forall l, local_cmp None (Some l) = Lt) /\
+  (forall l m, local_cmp (Some l) (Some m) = seg_lex l m) /\
+  (forall p x y a b, seg_cmp x y <> Eq -> seg_lex (p ++ x :: a) (p ++ y :: b) = seg_cmp x y) /\
+  (forall s n, seg_cmp (inr s) (inl n) = Lt) /\
+  (forall n m, seg_cmp (inl n) (inl m) = (n ?= m)) /\
+  (forall s t, seg_cmp (inr s) (inr t) = lexc N.compare s t) /\
+  (forall l x m, seg_lex l (l ++ x :: m) = Lt).
+Proof.
+  split; [exact local_last|]. split; [exact local_none_first|]. split; [reflexivity|]. split; [exact local_first_diff|].
+  split; [exact local_num_above_alnum|]. split; [exact local_num_by_value|]. split; [exact local_alnum_lexical | exact local_prefix_first].
+Qed.
+Print Assumptions C01_local_rules.
+Theorem C01_local_last_ops a b x y : Version a = Some x -> Version b = Some y ->
+  epoch x = epoch y -> release x = release y -> pre x = pre y -> post x = post y -> dev x = dev y ->
+  local_cmp (local x) (local y) = Lt -> strictly_below x y.
+Proof.
+  intros Ha Hb E R P Q D L. apply (C01_below_iff a b x y Ha Hb). rewrite local_last; [exact L | | | |].
+  - split; [exact E | rewrite R; apply padcmp_refl].
+  - unfold pre_class. now rewrite P, Q, D.
+  - unfold post_class. now rewrite Q.
+  - unfold dev_class. now rewrite D.
+Qed.
+Print Assumptions C01_local_last_ops.
+
+(* 15. mixed transitivity on the Python operators: <= chains, and == is a congruence for every operator (so other spellings of the same
+       version behave identically against any third version: "whatever the spelling") *)
+Theorem C01_le_transitive a b c x y z : Version a = Some x -> Version b = Some y -> Version c = Some z ->
+  vop Le_ x y = Some true -> vop Le_ y z = Some true -> vop Le_ x z = Some true.
+Proof.
+  intros Ha Hb Hc. rewrite (C01_ops_are_pep440 a b x y Ha Hb), (C01_ops_are_pep440 b c y z Hb Hc), (C01_ops_are_pep440 a c x z Ha Hc).
+  intros H1 H2. destruct (pep440_cmp x y) eqn:E1; cbn in H1; try congruence.
+  - now rewrite <- (ok_trans_eq _ pep440_cmp_ok x y z E1).
+  - rewrite (ok_trans_lt _ pep440_cmp_ok x y z E1); [reflexivity|]. destruct (pep440_cmp y z); cbn in H2; congruence.
+Qed.
+Print Assumptions C01_le_transitive.
+Theorem C01_eq_congruence a b c x y z : Version a = Some x -> Version b = Some y -> Version c = Some z ->
+  vop Eq_ x y = Some true -> forall o, vop o x z = vop o y z /\ vop o z x = vop o z y.
+Proof.
+  intros Ha Hb Hc H o. rewrite (C01_ops_are_pep440 a b x y Ha Hb) in H.
+  assert (E : pep440_cmp x y = Eq) by (destruct (pep440_cmp x y); cbn in H; congruence).
+  rewrite (C01_ops_are_pep440 a c x z Ha Hc), (C01_ops_are_pep440 b c y z Hb Hc), (C01_ops_are_pep440 c a z x Hc Ha), (C01_ops_are_pep440 c b z y Hc Hb).
+  rewrite (ok_sym _ pep440_cmp_ok x z), (ok_sym _ pep440_cmp_ok y z), (ok_trans_eq _ pep440_cmp_ok x y z E). split; reflexivity.
+Qed.
+Print Assumptions C01_eq_congruence.
+Theorem C01_spelling_irrelevant a b c x y z : Version a = Some x -> Version b = Some y -> Version c = Some z ->
+  canon true a = canon true b -> forall o, vop o x z = vop o y z /\ vop o z x = vop o z y.
+Proof.
+  intros Ha Hb Hc K. apply (C01_eq_congruence a b c x y z Ha Hb Hc).
+  rewrite (C01_ops_are_pep440 a b x y Ha Hb), (proj1 (canon_complete a b x y Ha Hb) K). reflexivity.
+Qed.
+Print Assumptions C01_spelling_irrelevant.
+
+(* 16. the sort that the `v.sort` observation runs (VObsModel.sort_v = what RunVersion.obs_sort calls; it asks only `<` on keys, like list.sort)
+       returns, on any list of accepted strings, an ascending arrangement that is a permutation of the input and keeps == versions in input order *)
+Theorem C01_run_sort_correct (ss : list str) (vs : list version) : all_some (map Version ss) = Some vs ->
+  ascending pep440_cmp (sort_v vs) /\ Permutation vs (sort_v vs) /\ forall z, filter (eqv z) (sort_v vs) = filter (eqv z) vs.
+Proof.
+  intros H. destruct (all_some_Forall Version VCmp.wf_version (fun a b E => wf_c01 _ (Version_wf a b E)) ss vs H) as [W _].
+  split; [now apply sort_v_ascending|]. split; [apply sort_v_perm|]. intros z. now apply sort_v_stable.
+Qed.
+Print Assumptions C01_run_sort_correct.
+(* 17. ... hence sorting gives one answer whatever the input order or spelling, for the sort that is run, on strings *)
+Theorem C01_run_sort_one_answer (ss1 ss2 : list str) (vs1 vs2 m m' : list version) :
+  all_some (map Version ss1) = Some vs1 -> all_some (map Version ss2) = Some vs2 ->
+  Permutation vs1 m -> Forall2 (fun a b => pep440_cmp a b = Eq) m m' -> Permutation m' vs2 ->
+  Forall2 (fun a b => vop Eq_ a b = Some true) (sort_v vs1) (sort_v vs2).
+Proof.
+  intros H1 H2 P1 E P2.
+  destruct (all_some_Forall Version VCmp.wf_version (fun a b E => wf_c01 _ (Version_wf a b E)) ss1 vs1 H1) as [W1 _].
+  destruct (all_some_Forall Version VCmp.wf_version (fun a b E => wf_c01 _ (Version_wf a b E)) ss2 vs2 H2) as [W2 _].
+  pose proof (sort_v_one_answer vs1 vs2 m m' W1 W2 P1 E P2) as F.
+  pose proof (sort_v_wf vs1 W1) as S1. pose proof (sort_v_wf vs2 W2) as S2.
+  revert S1 S2. induction F as [|x y l1 l2 Exy F IH]; intros S1 S2; constructor.
+  - inversion S1; inversion S2; subst. unfold vop. rewrite C01_rich_is_pep440 by assumption. now rewrite Exy.
+  - inversion S1; inversion S2; subst. now apply IH.
+Qed.
+Print Assumptions C01_run_sort_one_answer.
+
+(* 18. "numerically": a plain decimal string with any number of leading zeros is accepted and read as its value, so every operator compares two of
+        them as their values compare.  (This one fails if int() - VMeaning.num - or the scanner's treatment of digits were wrong.) *)
+Theorem C01_decimal_strings_compare_by_value k n j m : exists x y,
+  Version (repeat 48 k ++ dec n) = Some x /\ Version (repeat 48 j ++ dec m) = Some y /\ forall o, vop o x y = Some (of_cmp o (n ?= m)).
+Proof.
+  exists (plain n), (plain m). split; [apply Version_decimal|]. split; [apply Version_decimal|]. intros o.
+  rewrite (C01_ops_are_pep440 _ _ _ _ (Version_decimal k n) (Version_decimal j m)). now rewrite plain_cmp.
+Qed.
+Print Assumptions C01_decimal_strings_compare_by_value.
+
+(* 19. hash in the correspondence: the `v.cmph` observation reports T exactly when the two keys are structurally equal (pv_eqb decides equality),
+        and == versions always have equal keys - so the implementation must report equal hashes wherever the model prints T *)
+Theorem C01_hash_observation a b x y : Version a = Some x -> Version b = Some y ->
+  (pv_eqb (key x) (key y) = true <-> key x = key y) /\ (vop Eq_ x y = Some true -> pv_eqb (key x) (key y) = true).
+Proof.
+  intros Ha Hb. split; [apply pv_eqb_eq|]. intros H. apply pv_eqb_eq. rewrite (C01_ops_are_pep440 a b x y Ha Hb) in H.
+  assert (E : pep440_cmp x y = Eq) by (destruct (pep440_cmp x y); cbn in H; congruence).
+  exact (key_of_equal x y (Version_wf _ _ Ha) (Version_wf _ _ Hb) E).
+Qed.
+Print Assumptions C01_hash_observation.
+
 (* non-vacuity: two accepted spellings of equal versions, and a strict chain  1.0.dev1 < 1.0a1 < 1.0 < 1.0+a < 1.0.post0 *)
 Definition nonvac_check : bool :=
   match Version [32;118;49;46;48;46;48;45;82;67;46;49], Version [49;99;49] with
   | Some x, Some y => match vop Eq_ x y, pep440_cmp x y with Some true, Eq => true | _, _ => false end
   | _, _ => false end.
 Example C01_nonvacuous : nonvac_check = true.
+Proof. vm_compute. reflexivity. Qed.
+(* the strict chain  1.0.dev1 < 1.0a1 < 1.0a1.post1.dev0 < 1.0a1.post1 < 1rc1 < 1.0.0 < 1+a < 1.0+1 < 1.0.post0  on the keys (Py.vs), asserted *)
+Example C01_chain : chain vs = [Some true; Some false; Some true; Some false; Some true; Some false; Some true; Some false;
+                                 Some true; Some false; Some true; Some false; Some true; Some false; Some true; Some false].
+Proof. vm_compute. reflexivity. Qed.
+(* the sort that is run, on spellings:  sorted(["1.0.post0", "1.0", "1.0a1", "1!0", "1.0.0", "1.0.dev1"]) keeps "1.0" before "1.0.0" *)
+Definition sort_check : bool :=
+  match all_some (map Version [[49;46;48;46;112;111;115;116;48]; [49;46;48]; [49;46;48;97;49]; [49;33;48]; [49;46;48;46;48]; [49;46;48;46;100;101;118;49]]) with
+  | Some l => match map vstr (sort_v l) with
+              | [d; a; f1; f2; p; e] => str_eqb d [49;46;48;46;100;101;118;49] && str_eqb f1 [49;46;48] && str_eqb f2 [49;46;48;46;48] && str_eqb e [49;33;48]
+              | _ => false end
+  | None => false end.
+Example C01_sort_nonvacuous : sort_check = true.
 Proof. vm_compute. reflexivity. Qed.
